@@ -45,8 +45,39 @@
                            `lock_discipline_on_tree`, `counts_atomic_on_tree`,
                            `closures_own_on_tree` are the generated obligations.
 
+                           (d) the crate's process-global state: no `static mut`,
+                           no unlocked interior mutability, every use of the type
+                           registry is `lock()` (`globals_sound`,
+                           `global_mutex_access_exclusive`,
+                           `globals_disciplined_on_tree`).
+
+  T5 `accepted_items_noninterfere`
+                           THE COMPOSITION T2 ∘ T1: a machine semantics of LIR
+                           items on one global store (Model/ConcExec: frames,
+                           fresh stack slots per activation, loads / stores /
+                           block copies, calls between items; arithmetic, control
+                           and Rust callees as parameters). For every program
+                           accepted by `acceptProg` (= `Lir.accept` on every item
+                           + the call-site check), every behaviour of Rust callees
+                           with `RtConfined`, every number of calls and EVERY
+                           schedule: each machine step is a `LocalStep` of T1
+                           (`accepted_steps_local`), so every call ends exactly as
+                           in its solo run and shared memory is unchanged.
+                           `rtConfined_of_sync` derives `RtConfined` from T3.
+                           `c12_concurrent_use` / `c12_on_tree`: C12 as ONE theorem
+                           — T5 ∧ T4's conclusions from the checker's verdict, the
+                           generated obligations and the named trusted hypotheses.
+
+  T6                       every `lir::Instruction` kind is inside the model
+                           (`Generated/C12Instr`: kinds, fields, codegen and
+                           interpreter operations): `instr_kinds_classified`,
+                           `roles_match_model`, `okInstr_demands`,
+                           `events_by_roles`, `regs_by_roles`,
+                           `codegen_ops_match_model`, `eval_ops_match_model`.
+
   Not modelled (exercised by the stress harness only): data races inside the
-  machine code itself, the global `TypeRegistry` mutex, the `symbol_table`
+  machine code itself (T5's machine is at the level of LIR instructions; that a
+  stack slot is memory of the running thread is trusted), the `symbol_table`
   interner.
 -/
 import RotoV.Lemmas.Conc
